@@ -101,7 +101,7 @@ Blame ==
   @@ "oe.res.register.entryfailed" :> {"C08", "C06", "C14"} @@ "oe.res.from_registry.entryfailed" :> {"C08", "C06"} @@ "oe.res.setup.entryfailed" :> {"C08", "C06"}
   @@ "oe.res.replace.entryfailed" :> {"C08", "C06"} @@ "oe.res.unregister.entryfailed" :> {"C08", "C06"}
   @@ "oe.res.already_running.entryfailed" :> {"C08", "C06", "C14"} @@ "oe.res.try_from_registry.entryfailed" :> {"C08", "C06", "C14"}
-  @@ "dn.miss"    :> {"C08", "C14"} @@ "dn.type" :> {"C08"} @@ "dn.lock" :> {"C08"}
+  @@ "dn.miss"    :> {"C08", "C14"} @@ "dn.miss.typefailed" :> {"C08", "C14", "C06"} @@ "dn.type" :> {"C08"} @@ "dn.lock" :> {"C08"}
   @@ "blk.reglock" :> {"C08"} @@ "blk.regping" :> {"C08"}
   @@ "oe.res.send" :> {"C12", "C02"}
   @@ "oe.ready.send" :> {"C12"}
